@@ -372,6 +372,35 @@ func runC15(c *Ctx) {
 		}
 	})
 
+	// ---- instants around daylight-saving changes of real zones ----
+	// (odd variants carry them in the zone database's Location, the way times of a program working in
+	// local time are; the wall clock of the repeated hour exists twice, with two offsets)
+	dst := []model.TS{}
+	for _, x := range [][7]int{
+		{2021, 11, 7, 1, 30, 15, -300}, {2021, 11, 7, 1, 30, 15, -240}, {2021, 11, 7, 0, 59, 59, -240}, {2021, 11, 7, 2, 0, 0, -300}, {2021, 3, 14, 3, 0, 0, -240}, {2021, 3, 14, 1, 59, 59, -300}, // New York
+		{2021, 10, 31, 2, 30, 0, 60}, {2021, 10, 31, 2, 30, 0, 120}, {2021, 3, 28, 3, 0, 0, 120}, {2021, 3, 28, 1, 59, 59, 60}, // Berlin
+		{2021, 4, 4, 1, 45, 0, 630}, {2021, 4, 4, 1, 45, 0, 660}, {2021, 10, 3, 2, 30, 0, 660}, // Lord Howe (half-hour change)
+		{2021, 11, 7, 1, 15, 0, -210}, {2021, 11, 7, 1, 15, 0, -150}, // St. John's
+		{2021, 4, 4, 3, 0, 0, 765}, {2021, 4, 4, 3, 0, 0, 825}, {2018, 2, 17, 23, 30, 0, -180}, {2018, 2, 17, 23, 30, 0, -120}, // Chatham, Sao Paulo
+		{2021, 6, 1, 12, 0, 0, 330}, {1950, 6, 1, 12, 0, 0, -240}, {2300, 11, 4, 1, 30, 0, -300}, {2300, 11, 4, 1, 30, 0, -240},
+	} {
+		for _, fd := range []int{0, 2, 9} {
+			t := model.TS{Y: x[0], M: x[1], D: x[2], H: x[3], Mi: x[4], S: x[5], Prec: model.PSecond, FracDigits: fd, OffKnown: true, OffMin: x[6]}
+			if fd > 0 {
+				t.Nanos = 250000000
+			}
+			dst = append(dst, t.Normalize())
+		}
+		dst = append(dst, model.TS{Y: x[0], M: x[1], D: x[2], H: x[3], Mi: x[4], Prec: model.PMinute, OffKnown: true, OffMin: x[6]}.Normalize())
+	}
+	c.Parallel(len(dst), func(w, i int) {
+		r := rand.New(rand.NewSource(c.Seed*9_200_003 + int64(i)))
+		for variant := 0; variant < 6; variant++ {
+			allPaths(c, dst[i], variant, r)
+		}
+		c.Obs("daylight_saving_instants", 1)
+	})
+
 	// ---- impossible strings ----
 	negs := []string{
 		"2000-00-01T", "2000-13-01T", "2000-00T", "2000-13T", "2000-01-00T", "2000-01-32T", "2001-02-29T", "2100-02-29T", "2000-02-30T", "2000-04-31T", "2000-06-31",
